@@ -204,14 +204,7 @@ theorem poke_zeros_take (result bs : List UInt8) (n : Nat) (h : bs.length ≤ n)
   rw [List.take_replicate, Nat.min_self]
 
 
-/-! ### casts -/
-
-/-- a source the property speaks about: one byte, one code point of a Python str, an address -/
-def CastSrc.WF : CastSrc → Prop
-  | .bytes bs => bs.length = 1
-  | .str cps => ∃ cp, cps = [cp] ∧ cp ≤ 0x10FFFF
-  | .ptr a => a < 2 ^ 64
-  | _ => True
+/-! ### wrapping -/
 
 theorem readInt_writeRaw_wrap (T : IntType) (hb : T.kind ≠ .bool) (value : Int) :
     readInt T (writeRaw value T.width) = .ok (T.wrap value) := by
@@ -229,39 +222,5 @@ theorem wrap_congr (T : IntType) (a b : Int) (h : a % 2 ^ 64 = b % 2 ^ 64) : T.w
     simp [IntType.wrap, CInt.wrap, IntType.readsSigned, IntType.bits, Width.bits, Width.bytes, wrapS, wrapU] at h ⊢ <;>
     omega
 
-theorem castValue_congr (T : IntType) (hb : T.kind ≠ .bool) (src : CastSrc) (hwf : src.WF) :
-    ∃ value x, castValue T src = .ok value ∧ src.trunc = some x ∧ value % 2 ^ 64 = x % 2 ^ 64 := by
-  cases src with
-  | int v =>
-    refine ⟨(myAsUnsignedLongLong v false).1, v, by simp [castValue, hb], rfl, ?_⟩
-    simp [myAsUnsignedLongLong, pyLongAsUnsignedLongLongMask]
-  | bool b =>
-    refine ⟨(myAsUnsignedLongLong (if b then 1 else 0) false).1, _, by simp [castValue, hb], rfl, ?_⟩
-    simp [myAsUnsignedLongLong, pyLongAsUnsignedLongLongMask]
-  | float m e =>
-    refine ⟨(myAsUnsignedLongLong (floatTrunc m e) false).1, _, by simp [castValue, hb], rfl, ?_⟩
-    simp [myAsUnsignedLongLong, pyLongAsUnsignedLongLongMask]
-  | bytes bs =>
-    match bs, hwf with
-    | [b], _ => exact ⟨_, _, rfl, rfl, rfl⟩
-  | str cps =>
-    obtain ⟨cp, rfl, hcp⟩ := hwf
-    by_cases hk : T.kind = .swchar
-    · refine ⟨wrapU 64 (wrapS 32 (wrapU 32 cp)), cp, by simp [castValue, hk], rfl, ?_⟩
-      simp [wrapU, wrapS]; omega
-    · refine ⟨wrapU 32 cp, cp, by simp [castValue, hk], rfl, ?_⟩
-      simp [wrapU]; omega
-  | ptr a =>
-    refine ⟨_, a, rfl, rfl, ?_⟩
-    simp [CastSrc.WF] at hwf
-    simp [wrapU, wrapS]; omega
-
-/-- closed form of `int(ffi.cast(T, x))` for the non-`_Bool` types -/
-theorem castInt_eq_wrap (T : IntType) (hb : T.kind ≠ .bool) (src : CastSrc) (hwf : src.WF) :
-    ∃ x, src.trunc = some x ∧ castInt T src = .ok (T.wrap x) := by
-  obtain ⟨value, x, hv, hx, hc⟩ := castValue_congr T hb src hwf
-  refine ⟨x, hx, ?_⟩
-  simp only [castInt, cast, hv, hb, if_false]
-  rw [readInt_writeRaw_wrap T hb, wrap_congr T value x hc]
 
 end CffiVerif.CInt
